@@ -6,10 +6,13 @@ ASSUMPTIONS = [
     "every field of every pre-existing object (lists with order, reference sets, pin maps, data, bundle flags) is "
     "unchanged and mentions no object allocated during the call",
     "refusal sources: asserts and the KeyError/ValueError/AttributeError/TypeError/IndexError of the modelled Python semantics; "
-    "listeners: none registered here (naming-rule refusals are decided by the C10 obligations)",
+    "listener configurations: none, and the real naming plug-in (interpreted from source) under the DEFAULT and the EDIF policy, "
+    "where the frame additionally covers the plug-in's name tables (same answers to name lookups)",
     "paths on which a list/allocation capacity bound is exceeded are excluded and reported as bound-reached",
 ]
 
 
 def jobs(tier):
-    return step_jobs("C14", tier, want=("frame",))
+    return step_jobs("C14", tier, want=("frame",)) + \
+        step_jobs("C14", tier, want=("frame",), listeners=("manager:DEFAULT", "manager:EDIF"),
+                  validation=False)
